@@ -72,6 +72,7 @@ Definition uadd (site : N) (a b : N) : res N :=
 Definition i64_min : Z := (-9223372036854775808)%Z.
 Definition i64_max : Z := 9223372036854775807%Z.
 Definition i64_ok (z : Z) : bool := ((i64_min <=? z) && (z <=? i64_max))%Z.
+Definition isat64 (z : Z) : Z := Z.max i64_min (Z.min i64_max z).
 Definition iadd64 (site : N) (a b : Z) : res Z :=
   if i64_ok (a + b)%Z then Ok (a + b)%Z else Panic site.
 
